@@ -294,6 +294,36 @@ static void emitWV(Rng & rng) {
 
 // PERSEUS draws its beliefs from a BeliefGenerator seeded by the global Seeder: re-seeding reproduces the same list, so the
 // whole run can be compared with the Lean model `perseusRun`
+static void emitPERSEUSOn(const PomdpTables & pt, size_t nB, unsigned h, unsigned seed) {
+    Model model = toDense(pt);
+    AIToolbox::Seeder::setRootSeed(seed);
+    P::PERSEUS solver(nB, h, 0.0);
+    auto vf = std::get<1>(solver(model, pt.R.minCoeff()));
+    AIToolbox::Seeder::setRootSeed(seed);
+    (void)AIToolbox::Seeder::getSeed();                  // the seed PERSEUS's own engine took
+    P::BeliefGenerator<Model> gen(model);                // takes the seed PERSEUS's internal generator took
+    auto bl = gen(nB);
+    Line l; l << "C04" << "perseus"; putPomdp(l, pt); l << (size_t)bl.size();
+    for (const auto & b : bl) putVector(l, b);
+    l << (double)vf[0][0].values[0] << h << "|"; putVF(l, vf); l.emit();
+}
+
+// regression model of seeded change C04-2: 3 states, 3 actions, 2 observations, deterministic transitions; on it a PERSEUS
+// backup at a support belief can be worse than the previous horizon's value when the support is sparse (nBeliefs 2, 3)
+static PomdpTables regressingTables() {
+    PomdpTables p; p.S = 3; p.A = 3; p.O = 2; p.discount = 0.9;
+    const int target[3][3] = { {0, 2, 0}, {1, 0, 2}, {0, 1, 0} };
+    const int reward[3][3] = { {-2, 2, -3}, {3, 5, -5}, {3, -4, 5} };
+    const int obs[3][3]    = { {2, 2, 1}, {2, 1, 1}, {0, 2, 2} };
+    p.T.assign(3, AIToolbox::Matrix2D::Zero(3, 3)); p.R = AIToolbox::Matrix2D::Zero(3, 3); p.Ob.assign(3, AIToolbox::Matrix2D::Zero(3, 2));
+    for (size_t s = 0; s < 3; ++s) for (size_t a = 0; a < 3; ++a) {
+        p.T[a](s, target[s][a]) = 1.0; p.R(s, a) = reward[s][a];
+        double w0 = obs[s][a] == 0 ? 0.8 : (obs[s][a] == 1 ? 0.2 : 0.5);
+        p.Ob[a](s, 0) = w0; p.Ob[a](s, 1) = 1.0 - w0;
+    }
+    return p;
+}
+
 static void emitPERSEUS(Rng & rng) {
     size_t S = 2 + rng.below(3), A = 1 + rng.below(3), O = rng.coin() ? 2 : 1;
     unsigned h = 1 + (unsigned)rng.below(3);
@@ -305,18 +335,7 @@ static void emitPERSEUS(Rng & rng) {
         std::printf("#stat perseus_few_beliefs:%zu 1\n", nB);
     }
     auto pt = randomPomdp(rng, S, A, O);
-    Model model = toDense(pt);
-    unsigned seed = (unsigned)rng.below(1u << 30);
-    AIToolbox::Seeder::setRootSeed(seed);
-    P::PERSEUS solver(nB, h, 0.0);
-    auto vf = std::get<1>(solver(model, pt.R.minCoeff()));
-    AIToolbox::Seeder::setRootSeed(seed);
-    (void)AIToolbox::Seeder::getSeed();                  // the seed PERSEUS's own engine took
-    P::BeliefGenerator<Model> gen(model);                // takes the seed PERSEUS's internal generator took
-    auto bl = gen(nB);
-    Line l; l << "C04" << "perseus"; putPomdp(l, pt); l << (size_t)bl.size();
-    for (const auto & b : bl) putVector(l, b);
-    l << (double)vf[0][0].values[0] << h << "|"; putVF(l, vf); l.emit();
+    emitPERSEUSOn(pt, nB, h, (unsigned)rng.below(1u << 30));
 }
 
 // LinearSupport, one timestep at a time: the real run gives the levels; the vertex lists the real findVerticesNaive hands
@@ -421,7 +440,11 @@ void verif::verif_case(Rng & rng, long idx, const std::string & tier) {
     if (idx == 0) { runSolver(rng, 5, witnessQmdp(), 2); return; }           // known finding witness
     if (idx == 1) { runSolver(rng, 5, witnessQmdp(), 1); return; }           // QMDP with VI horizon 1 IS a one-step plan
     if (idx >= 2 && idx < 7) { runSolver(rng, (int)idx - 2, tigerTables(), 3); return; }
-    if (idx == 7) { runSolver(rng, 0, tigerTables(), 4); return; }
+    if (idx == 7) {
+        runSolver(rng, 0, tigerTables(), 4);
+        for (size_t nB : {2, 3, 20}) emitPERSEUSOn(regressingTables(), nB, 8, 7);
+        return;
+    }
     if (idx >= 8 && idx < kFixed) { for (int k = 0; k < 12; ++k) { emitXD(rng); emitPR(rng); emitCS(rng); emitPJ(rng); emitPBVI(rng); emitWV(rng); emitPERSEUS(rng); emitLS(rng); } return; }
     long r = idx - kFixed;
     int which = (int)(r % 6);
@@ -443,7 +466,7 @@ void verif::verif_case(Rng & rng, long idx, const std::string & tier) {
     }
     if (std::getenv("VERIF_DEBUG")) std::fprintf(stderr, "case %ld: %s S=%zu A=%zu O=%zu h=%u ugly=%d sparse=%d tol=%g\n", idx, kSolvers[which], S, A, O, h, (int)ugly, (int)sparse, tol);
     runSolver(rng, which, pt, h, tol, sparse, fewBeliefs);
-    if (r % 10 == 0) { emitXD(rng); emitPR(rng); emitCS(rng); emitPJ(rng); emitPBVI(rng); emitWV(rng); emitPERSEUS(rng); emitLS(rng); }
+    if (r % 10 == 0) { emitXD(rng); emitPR(rng); emitCS(rng); emitPJ(rng); emitPBVI(rng); emitWV(rng); emitPERSEUS(rng); emitPERSEUS(rng); emitLS(rng); }
 }
 
 VERIF_MAIN
